@@ -108,6 +108,8 @@ def np_index(spec):
     t = spec["t"]
     how = spec.get("as")
     if t == "int":
+        if how == "0d":
+            return np.array(spec["v"])
         return np.int64(spec["v"]) if how == "npint" else spec["v"]
     if t == "slice":
         return slice(*spec["v"])
@@ -639,7 +641,9 @@ def spell(rng, spec):
     for sub in (spec, spec.get("a"), spec.get("b")):
         if isinstance(sub, dict) and rng.random() < 0.25:
             if sub["t"] == "int":
-                sub["as"] = "npint"
+                # a numpy integer scalar, or (every third value; derived from the value, not drawn) a zero-dimensional
+                # integer array, which numpy takes as an integer index as well
+                sub["as"] = "0d" if sub["v"] % 3 == 0 else "npint"
             elif sub["t"] == "mask":
                 sub["as"] = rng.choice(["list", "list", "ro"])
             elif sub["t"] == "arr":
